@@ -233,6 +233,11 @@ func init() {
 	}
 	ext["(*sync.Pool).Get"] = func(fr *frame, args []value) value {
 		p := args[0].(*value)
+		if l := poolFree[p]; len(l) > 0 {
+			v := l[len(l)-1]
+			poolFree[p] = l[:len(l)-1]
+			return v
+		}
 		st := (*p).(structure)
 		newFn := st[len(st)-1]
 		switch f := newFn.(type) {
@@ -249,7 +254,13 @@ func init() {
 		}
 		return call(fr.i, fr, 0, newFn, nil)
 	}
-	ext["(*sync.Pool).Put"] = nop
+	ext["(*sync.Pool).Put"] = func(fr *frame, args []value) value {
+		p := args[0].(*value)
+		if len(poolFree[p]) < 4 {
+			poolFree[p] = append(poolFree[p], args[1])
+		}
+		return nil
+	}
 
 	// ---- sync/atomic (sequentially consistent; each is a scheduling point)
 	load := func(fr *frame, args []value) value {
@@ -652,6 +663,8 @@ func errorsIs(fr *frame, e, target iface, depth int) value {
 	return false
 }
 
+var poolFree = map[*value][]value{}
+
 type cleanupRec struct {
 	ptr, fn, arg value
 }
@@ -659,5 +672,5 @@ type cleanupRec struct {
 var Cleanups []cleanupRec
 
 func init() {
-	resetHooks = append(resetHooks, func() { Cleanups = nil; chanCounter = 0 })
+	resetHooks = append(resetHooks, func() { Cleanups = nil; chanCounter = 0; poolFree = map[*value][]value{} })
 }
